@@ -359,18 +359,25 @@ def run(prop, tier, check=None):
                         what="%s violated in run %s at record %d: %s" % (v["rule"], v["run"], v["record"], v["detail"][:300]))
     # ---- 4. trace validation against the mechanism model (L2): drift is reported, not alarmed
     l2file = tracefile
-    if any(r["meta"]["entry"] == 0 for r in reqs):
-        # unscripted REPL sessions have no mechanism-model counterpart: only the monitor judges them
+    no_l2 = {s["name"] for s in scenarios if s.get("no_l2")}
+    check.cov["scenarios_judged_by_the_monitor_only"] = sorted(no_l2)
+    if no_l2 or any(r["meta"]["entry"] == 0 for r in reqs):
+        # unscripted REPL sessions, and scenarios that use a mechanism the model does not describe (no_l2: effects
+        # issued from inside a filter body), have no mechanism-model counterpart: only the monitor judges them
         l2file = tracefile + ".scripted"
         keep = True
         with open(tracefile) as fi, open(l2file, "w") as fo:
             for line in fi:
                 if '"k":"init"' in line:
-                    keep = json.loads(line)["meta"]["entry"] != 0
+                    m_ = json.loads(line)["meta"]
+                    keep = m_["entry"] != 0 and m_.get("scenario") not in no_l2
                 if keep:
                     fo.write(line)
-    res2, bad = validate(l2file, scriptsfile, CODE_DEFECTS)
-    check.add_tlc("trace:RuntimeTrace", res2)
+    if os.path.getsize(l2file) == 0:
+        res2, bad = None, None          # nothing for the mechanism model to explain (monitor-only scenarios)
+    else:
+        res2, bad = validate(l2file, scriptsfile, CODE_DEFECTS)
+        check.add_tlc("trace:RuntimeTrace", res2)
     if bad is not None:
         check.cov["model_drift"] = 1
         check.cov["model_drift_at_record"] = bad
